@@ -810,7 +810,7 @@ func (d decoder) unmarshalTimestamp(m protoreflect.Message) error {
 
 	s := tok.ParsedString()
 	t, err := time.Parse(time.RFC3339Nano, s)
-	if err != nil {
+	if err != nil || !isRFC3339(s) {
 		return d.newError(tok.Pos(), "invalid %v value %v", genid.Timestamp_message_fullname, tok.RawString())
 	}
 	// Validate seconds.
@@ -832,6 +832,54 @@ func (d decoder) unmarshalTimestamp(m protoreflect.Message) error {
 	m.Set(fdSeconds, protoreflect.ValueOfInt64(secs))
 	m.Set(fdNanos, protoreflect.ValueOfInt32(int32(t.Nanosecond())))
 	return nil
+}
+
+// isRFC3339 reports whether s has the shape required by RFC 3339,
+// "YYYY-MM-DDTHH:MM:SS[.fraction](Z|±HH:MM)" with a fraction of at most 9 digits.
+// time.Parse alone is more lenient: it also accepts a one-digit hour and
+// a comma as the decimal separator.
+func isRFC3339(s string) bool {
+	const shape = "0000-00-00T00:00:00"
+	if len(s) < len(shape) {
+		return false
+	}
+	for i := 0; i < len(shape); i++ {
+		if shape[i] == '0' {
+			if s[i] < '0' || '9' < s[i] {
+				return false
+			}
+		} else if s[i] != shape[i] {
+			return false
+		}
+	}
+	s = s[len(shape):]
+	if len(s) > 0 && s[0] == '.' {
+		n := 1
+		for n < len(s) && '0' <= s[n] && s[n] <= '9' {
+			n++
+		}
+		if n == 1 || n > len(".999999999") {
+			return false
+		}
+		s = s[n:]
+	}
+	if s == "Z" {
+		return true
+	}
+	const zone = "+00:00"
+	if len(s) != len(zone) || (s[0] != '+' && s[0] != '-') {
+		return false
+	}
+	for i := 1; i < len(zone); i++ {
+		if zone[i] == '0' {
+			if s[i] < '0' || '9' < s[i] {
+				return false
+			}
+		} else if s[i] != zone[i] {
+			return false
+		}
+	}
+	return true
 }
 
 // The JSON representation for a FieldMask is a JSON string where paths are
